@@ -167,6 +167,12 @@ off64_t _GD_GetEOF(DIRFILE *restrict D, gd_entry_t *restrict E,
   *is_index = 0;
   switch (E->field_type) {
     case GD_RAW_ENTRY:
+      /* the spf may be given by a scalar field: resolve it first */
+      if (!(E->flags & GD_EN_CALC))
+        _GD_CalculateEntry(D, E, 1);
+      if (D->error)
+        break;
+
       if (!_GD_Supports(D, E, GD_EF_NAME | GD_EF_SIZE))
         break;
 
@@ -292,6 +298,13 @@ off64_t _GD_GetEOF(DIRFILE *restrict D, gd_entry_t *restrict E,
       }
       break;
     case GD_PHASE_ENTRY:
+      /* the shift may be given by a scalar field: resolve it first (as
+       * _GD_GetSPF does for the spf of a RAW field) */
+      if (!(E->flags & GD_EN_CALC))
+        _GD_CalculateEntry(D, E, 1);
+      if (D->error)
+        break;
+
       ns = _GD_GetEOF(D, E->e->entry[0], E->field, is_index);
       /* not clamped here: a later PHASE may shift it back (gd_eof64 reports
        * a negative end-of-field as zero) */
@@ -410,6 +423,12 @@ static off64_t _GD_GetBOF(DIRFILE *restrict D, gd_entry_t *restrict E,
       bof = _GD_GetBOF(D, E->e->entry[0], E->field, spf, ds);
       break;
     case GD_PHASE_ENTRY:
+      /* resolve a shift given by a scalar field first */
+      if (!(E->flags & GD_EN_CALC))
+        _GD_CalculateEntry(D, E, 1);
+      if (D->error)
+        break;
+
       bof = _GD_GetBOF(D, E->e->entry[0], E->field, spf, ds);
 
       if (!D->error) {
